@@ -48,7 +48,19 @@ def cases(tier, seed, info):
     return out
 
 
+# byte values that text handling treats as blank / separator (what str.strip() and str.split() remove)
+BLANKS = [0x20, 0x09, 0x0A, 0x0B, 0x0C, 0x0D, 0x1C, 0x1D, 0x1E, 0x1F, 0x85, 0xA0, 0x00, 0x25, 0x7B, 0x5C]
+
+
 def fill(rng, pattern, mode):
+    if mode == 'ws':
+        # wildcard BYTES take blank-like (and format-like) values: a parameter shown with %c becomes such a character
+        out = ''
+        for j in range(0, len(pattern), 2):
+            pair = pattern[j:j + 2]
+            out += '%02X' % rng.choice(BLANKS) if pair == '**' else \
+                ''.join(rng.choice(HEXD) if c == '*' else c.upper() for c in pair)
+        return int(out, 16)
     out = ''
     for ch in pattern:
         if ch == '*':
@@ -72,7 +84,7 @@ def data_for(rng, table, lo, hi):
         pat = e['pattern']
         if len(pat) != 8 or any(c not in HEXD + 'abcdef*' for c in pat):
             continue
-        for mode in ('zero', 'rand'):
+        for mode in ('zero', 'rand', 'ws') if '**' in pat else ('zero', 'rand'):
             pte = fill(rng, pat, mode)
             seq = (seq + 1) & 0xFFFF
             data += entry_bytes(rng.choice(TS), seq, pte)
@@ -91,7 +103,7 @@ def data_for(rng, table, lo, hi):
     return data
 
 
-MSGS = ['Plain message', 'Value %d', 'Hex 0x%02X and %c', '%c%c', 'PS%d - Faults Cleared', 'Level = %.4X%%',
+MSGS = ['Plain message', 'caf\u00e9 %d \u4e2d', '100%% done', 'Value %d', 'Hex 0x%02X and %c', '%c%c', 'PS%d - Faults Cleared', 'Level = %.4X%%',
         'Two %x %X', 'Quote "N-Mode" %u', 'Too many %d %d %d', '100%', 'pad %02u:%02u', '%s', 'x%08Xy', '%.2X', '%i',
         'bad %q directive', 'trailing %']
 
